@@ -429,3 +429,34 @@ impl C07 {
         acc.sample(|| json!({"leg": "through-files", "case": case, "history_excerpt": d.history_json(8)}));
     }
 }
+
+/// Auxiliary (Miri / valgrind) workload: `n` round trips at offsets next to block edges.
+pub fn aux_round_trips(seed: u64, n: usize) -> Result<String, String> {
+    let mut rng = Rng::new(seed ^ 0xA007);
+    let mut done = 0;
+    for _ in 0..n {
+        let s = match rng.below(4) {
+            0 => 0,
+            1 => rng.usize(H, 40),
+            2 => B - rng.usize(1, 40),
+            _ => rng.usize(H, B - 1),
+        };
+        let rem = B - s % B;
+        let l = match rng.below(5) {
+            0 => rng.usize(0, 16),
+            1 => rem.saturating_sub(H) + rng.usize(0, 9),
+            2 => rem.saturating_sub(H).saturating_sub(rng.usize(0, 9)),
+            3 => B - H + rng.usize(0, 3),
+            _ => rng.usize(0, 2 * B),
+        };
+        let mut entries: Vec<Vec<u8>> = Vec::new();
+        if s > 0 {
+            entries.push(fill(s - H, s as u64));
+        }
+        entries.push(fill(l, l as u64));
+        entries.push(fill(rng.usize(0, 20), 3));
+        round_trip(&entries).map_err(|e| format!("s={} l={}: {}", s, l, e))?;
+        done += 1;
+    }
+    Ok(format!("round_trips={}", done))
+}
